@@ -182,11 +182,32 @@ pub fn deinline_opt(
         })
         .collect();
 
-    for (_, function_set) in root_set_to_inline_tree.iter() {
+    // The search below is greedy, so its result depends on the order in which
+    // candidates are tried.  Visit them in program order (the position of the
+    // helper in the program) rather than in hash order, which differs from
+    // process to process, or in name order, which for generated names depends
+    // on what was compiled before.
+    let position_of = |name: &Vec<u8>| helper_to_index.get(name).copied().unwrap_or(usize::MAX);
+    let mut ordered_trees: Vec<Vec<&Vec<u8>>> = root_set_to_inline_tree
+        .values()
+        .map(|function_set| {
+            let mut functions: Vec<&Vec<u8>> = function_set.iter().collect();
+            functions.sort_by_key(|f| position_of(f));
+            functions
+        })
+        .collect();
+    ordered_trees.sort_by_key(|functions| {
+        functions
+            .iter()
+            .map(|f| position_of(f))
+            .collect::<Vec<usize>>()
+    });
+
+    for function_set in ordered_trees.iter() {
         loop {
             let start_metric = metric;
 
-            for f in function_set.iter() {
+            for f in function_set.iter().copied() {
                 // Get index of helper identified by this leaf name.
                 let i = if let Some(i) = helper_to_index.get(f) {
                     *i
